@@ -184,6 +184,9 @@ func (c *AtlasClient) downloadClusterLogsForHost(ctx context.Context, publicKey,
 
 	_, err = io.Copy(tmpFile, resp.Body)
 	if err != nil {
+		// never leave a partial raw log behind: the caller only learns about complete files
+		tmpFile.Close()
+		_ = os.Remove(tmpFile.Name())
 		return "", fmt.Errorf("failed to write log to temp file: %w", err)
 	}
 
